@@ -22,6 +22,7 @@ BUILD = os.environ.get("VERIF_BUILD", os.path.join(VERIF, ".build"))
 COQ = os.path.join(VERIF, "coq")
 TARGET = os.path.join(BUILD, "target")
 WORKROOT = os.environ.get("VERIF_WORK", "/var/tmp/xcp-verif-work")
+OUTDIR = os.environ.get("VERIF_OUT", VERIF)     # evidence/ and replays/ (redirected when testing seeded changes)
 NPROC = os.cpu_count() or 4
 
 CARGO_ENV = dict(os.environ,
@@ -265,10 +266,20 @@ def build_rust(features=None):
         if r.returncode != 0:
             raise BuildError("xcp does not build:\n" + r.stdout[-3000:])
         lock_src = os.path.join(REPO, "Cargo.lock")
-        lock_dst = os.path.join(VERIF, "probe", "Cargo.lock")
+        probe_dir = os.path.join(VERIF, "probe")
+        if os.path.realpath(REPO) != "/repo":
+            # seed testing against a scratch copy of the repository: build a copy of the probe that points at it
+            alt = os.path.join(BUILD, "probe-src")
+            shutil.rmtree(alt, ignore_errors=True)
+            shutil.copytree(probe_dir, alt, ignore=shutil.ignore_patterns("target"))
+            mf = os.path.join(alt, "Cargo.toml")
+            txt = open(mf).read().replace('"/repo/', '"%s/' % os.path.realpath(REPO))
+            open(mf, "w").write(txt)
+            probe_dir = alt
+        lock_dst = os.path.join(probe_dir, "Cargo.lock")
         if not os.path.exists(lock_dst):
             shutil.copy(lock_src, lock_dst)
-        r = run(["cargo", "build", "--offline"], cwd=os.path.join(VERIF, "probe"), env=CARGO_ENV, timeout=1500)
+        r = run(["cargo", "build", "--offline"], cwd=probe_dir, env=CARGO_ENV, timeout=1500)
         if r.returncode != 0:
             raise BuildError("probe does not build:\n" + r.stdout[-3000:])
     return dict(xcp=os.path.join(TARGET, "debug", "xcp"), probe=os.path.join(TARGET, "debug", "probe"))
